@@ -181,6 +181,7 @@ def observe(builder, layer, names, inputs=None, tuples=(), hashes=False):
         out['dir'] = sorted(dir(layer))
     except Exception as e:
         out['dir_err'] = exc_name(e)
+        out['dir_err_msg'] = str(e)
     fields = {}
     for name in list(names) + [tuple(t) for t in tuples]:
         key = name if isinstance(name, str) else '(' + ','.join(name) + ')'
@@ -216,4 +217,22 @@ def observe(builder, layer, names, inputs=None, tuples=(), hashes=False):
                 rec['hash_err'] = exc_name(e)
         fields[key] = rec
     out['fields'] = fields
+    # attribute access: a property (meta field) is called at once, a method is returned as a function
+    attrs = {}
+    for name in out.get('dir', []):
+        try:
+            a = getattr(layer, name)
+            attrs[name] = 'callable' if callable(a) and hasattr(a, '__signature__') or getattr(a, '__name__', '') == 'identity' \
+                else 'value:' + canon_short(a, w)
+        except Exception as e:
+            attrs[name] = 'err:' + exc_name(e)
+    out['attrs'] = attrs
     return out
+
+
+def canon_short(v, w):
+    from .codec import val_to_json, canon
+    try:
+        return canon(val_to_json(v, w))[:120]
+    except Exception:
+        return type(v).__name__
